@@ -507,6 +507,96 @@ theorem lost_reply_charges_bucket (c : TCfg) (s : Sys) (i ns n : Nat) (k : LostK
   | deadline => exact ⟨rfl, fun _ => ⟨rfl, rfl⟩, fun h => LostKind.noConfusion h⟩
   | timeout => exact ⟨by simp [Sys.rescuePath], fun h => LostKind.noConfusion h, fun _ => rfl⟩
 
+/-! ### lost replies over whole runs (TokenLimiter, the caller's deadline) -/
+
+/-- operations of a token run in which some requests lose their reply to the caller's deadline after the script ran -/
+inductive TOpL where
+  | op (o : TOp)
+  | lostDeadline (i ns n : Nat)
+
+/-- the same run with every reply delivered -/
+def TOpL.abs : TOpL → TOp
+  | .op o => o
+  | .lostDeadline i ns n => .allow i ns n
+
+def _root_.GoZero.C03.Sys.stepL (c : TCfg) (s : Sys) : TOpL → Sys × Option Ev
+  | .op o => s.step true c o
+  | .lostDeadline i ns n => let r := s.reserveLost c i ns n .deadline; (r.1, some r.2)
+
+def _root_.GoZero.C03.Sys.runL (c : TCfg) : Sys → List TOpL → List Ev
+  | _, [] => []
+  | s, o :: ops =>
+    match (s.stepL c o).2 with
+    | some e => e :: Sys.runL c (s.stepL c o).1 ops
+    | none => Sys.runL c (s.stepL c o).1 ops
+
+/-- two event lists of the same length, related position by position -/
+inductive Pointwise (R : Ev → Ev → Prop) : List Ev → List Ev → Prop where
+  | nil : Pointwise R [] []
+  | cons {a b : Ev} {l1 l2 : List Ev} : R a b → Pointwise R l1 l2 → Pointwise R (a :: l1) (b :: l2)
+
+/-- same request, and the caller is granted only if the delivered run grants -/
+def sameButMaybeRefused (eL e : Ev) : Prop :=
+  eL.inst = e.inst ∧ eL.route = e.route ∧ eL.ns = e.ns ∧ eL.n = e.n ∧ (eL.ok = true → e.ok = true)
+
+theorem reserveLost_deadline_state (c : TCfg) (s : Sys) (i ns n : Nat) :
+    (s.reserveLost c i ns n .deadline).1 = (s.reserveN true c i ns n).1 ∧
+    sameButMaybeRefused (s.reserveLost c i ns n .deadline).2 (s.reserveN true c i ns n).2 := by
+  have hp := ttlFixed_pos c.rate c.burst
+  have hne : ¬ (ttlFixed c.rate c.burst = 0) := by omega
+  unfold Sys.reserveLost
+  by_cases h : (!(s.insts i).alive || !s.up) = true
+  · rw [if_pos h]; exact ⟨rfl, rfl, rfl, rfl, rfl, id⟩
+  · rw [if_neg h]
+    have ha : (s.insts i).alive = true := by
+      cases hh : (s.insts i).alive <;> simp [hh] at h ⊢
+    have hu : s.up = true := by
+      cases hh : s.up <;> simp [hh, ha] at h ⊢
+    unfold Sys.reserveN
+    simp only [ha, hu, Bool.not_true, Bool.false_eq_true, if_false, tokenScript, Store.setex, ttlOf, if_true, hne]
+    refine ⟨?_, ?_⟩
+    · first | trivial | rfl
+    · simp [sameButMaybeRefused]
+
+/-- **TokenLimiter, replies lost to the caller's deadline, over whole runs: tokens may be consumed without a grant, never
+a grant without consumption.**  For EVERY operation sequence (any instances, outages, recoveries) in which any requests
+lose their reply after the script ran: the system goes through exactly the states of the run in which every reply was
+delivered — so the shared store stays ONE bucket (`token_refines_bucket` applies to that run, the lost requests counted
+as requests) — and request by request the caller is granted only if that run grants. -/
+theorem lost_replies_never_grant_more (c : TCfg) : ∀ (ops : List TOpL) (s : Sys),
+    Pointwise sameButMaybeRefused (Sys.runL c s ops) (Sys.run true c s (ops.map TOpL.abs)) := by
+  intro ops
+  induction ops with
+  | nil => intro s; exact Pointwise.nil
+  | cons o rest ih =>
+    intro s
+    cases o with
+    | op o =>
+      simp only [Sys.runL, Sys.stepL, List.map_cons, TOpL.abs, Sys.run]
+      cases (s.step true c o).2 with
+      | none => exact ih _
+      | some e => exact Pointwise.cons ⟨rfl, rfl, rfl, rfl, id⟩ (ih _)
+    | lostDeadline i ns n =>
+      obtain ⟨h1, h2⟩ := reserveLost_deadline_state c s i ns n
+      simp only [Sys.runL, Sys.stepL, List.map_cons, TOpL.abs, Sys.run, Sys.step, h1]
+      exact Pointwise.cons h2 (ih _)
+
+/-- … hence the tokens granted to callers never exceed those the ONE bucket handed out -/
+theorem lost_replies_granted_le (c : TCfg) (ops : List TOpL) (s : Sys) :
+    grantedOf (Sys.runL c s ops) ≤ grantedOf (Sys.run true c s (ops.map TOpL.abs)) := by
+  have h := lost_replies_never_grant_more c ops s
+  generalize Sys.runL c s ops = l1 at h
+  generalize Sys.run true c s (ops.map TOpL.abs) = l2 at h
+  induction h with
+  | nil => exact Nat.le_refl _
+  | @cons ea eb t1 t2 hab _ ih =>
+    obtain ⟨_, _, _, hn, hok⟩ := hab
+    simp only [grantedOf, List.map_cons, List.sum_cons] at ih ⊢
+    cases ha : ea.ok
+    · simp; omega
+    · have := hok ha
+      simp [this, hn]; omega
+
 /-- **The breaker's and the limiter's view of errors agree where it matters**: the token script's `false` (`redis.Nil`) is
 neither a failure for the client's breaker nor a reason to leave the shared bucket — it refuses; and whatever the
 breaker counts as a failure never grants on the store path. -/
